@@ -263,11 +263,11 @@ impl El for u64 {
     }
 }
 
-/// A large plain element (256 bytes): per-call work must not depend on the element size.
+/// A large plain element (512 bytes): per-call work must not depend on the element size.
 #[derive(Clone, PartialEq, Eq, Hash)]
 pub struct Big {
     val: u64,
-    pad: [u64; 31],
+    pad: [u64; 63],
 }
 impl std::fmt::Debug for Big {
     fn fmt(&self, f: &mut std::fmt::Formatter<'_>) -> std::fmt::Result {
@@ -282,9 +282,9 @@ impl Default for Big {
 impl El for Big {
     const TRACKED: bool = false;
     const HEAP: bool = false;
-    const NAME: &'static str = "big-256B";
+    const NAME: &'static str = "big-512B";
     fn mk(val: u64) -> Self {
-        Big { val, pad: [val ^ 0x5555; 31] }
+        Big { val, pad: [val ^ 0x5555; 63] }
     }
     fn val(&self) -> u64 {
         self.val
@@ -294,7 +294,7 @@ impl El for Big {
     }
     fn set_val(&mut self, v: u64) {
         self.val = v;
-        self.pad = [v ^ 0x5555; 31];
+        self.pad = [v ^ 0x5555; 63];
     }
 }
 
